@@ -6,9 +6,9 @@ CONSTANTS
   MaxBatch = 3
   NReq = 3
   ForkEpochs = {10}
-  HistOps = {"attestation", "attestations", "proposal", "randao", "slot_selection", "sync_selection", "aggregate_and_proof", "sync_root", "contribution", "registration"}
+  HistOps = {"attestation", "attestations", "proposal", "randao", "slot_selection", "sync_selection", "aggregate_and_proof", "sync_root", "contribution", "blob_sidecar", "registration"}
   HistKinds = {"plain", "plain_dist", "prot", "prot_dist"}
-  HistFails = {"none", "domain", "signer", "nilsig"}
+  HistFails = {"none", "domain", "signer", "nilsig", "input"}
   GateModes = {"d", "s", "ds", "none"}
 INVARIANTS Emit
 CHECK_DEADLOCK FALSE
